@@ -31,7 +31,9 @@ TIMEOUT = {"quick": 1500, "thorough": 7200}
 
 def plan(tier, seed):
     n = 2 if tier == "quick" else 40
-    return [{"i": i, "histories": n, "big": tier == "thorough", "cap": 6 if tier == "quick" else 30} for i in range(NSHARDS)]
+    # "strace": the first N histories of a shard are additionally run under strace (thorough tier; NIXMON_C17_STRACE=N forces it)
+    st = int(os.environ.get("NIXMON_C17_STRACE", "0")) or (3 if tier == "thorough" else 0)
+    return [{"i": i, "histories": n, "big": tier == "thorough", "cap": 6 if tier == "quick" else 30, "strace": st} for i in range(NSHARDS)]
 
 
 # ------------------------------------------------------------------------------------------
@@ -89,6 +91,10 @@ def child_main(argv):
                 rec = {"table": snap.table, "kind": kind, "comp": str(comp), "since": sorted(since), "grown": grown,
                        "entities": len(snap.table), "step": i, "flush_density": pflush, "auto_timestamps": not auto_off,
                        "flushes_before": sum(1 for x in points if x == "flush")}
+                mfd = None
+                if os.environ.get("NIXMON_C17_MARKER"):
+                    mfd = os.open(os.environ["NIXMON_C17_MARKER"], os.O_WRONLY | os.O_CREAT | os.O_APPEND)
+                    os.write(mfd, b"NIXMON-ENTER\n")
                 if not control:
                     if kind == "flush":
                         B.f.flush()
@@ -96,6 +102,8 @@ def child_main(argv):
                         B.f.close()
                     else:
                         B.f.__exit__(None, None, None)
+                if mfd is not None:
+                    os.write(mfd, b"NIXMON-RETURN\n")
                 with open(side, "w") as fh:
                     json.dump(rec, fh)
                     fh.flush()
@@ -119,7 +127,7 @@ def child_main(argv):
 # ------------------------------------------------------------------------------------------
 # parent
 # ------------------------------------------------------------------------------------------
-def spawn(path, side, seed, shard, case, point, control, big, timeout=600):
+def spawn(path, side, seed, shard, case, point, control, big, timeout=600, strace_log=None):
     from .. import env
     for p in (side,):
         try:
@@ -128,14 +136,50 @@ def spawn(path, side, seed, shard, case, point, control, big, timeout=600):
             pass
     e = dict(os.environ)
     e["PYTHONPATH"] = env.VERIF + os.pathsep + e.get("PYTHONPATH", "")
-    p = subprocess.run([env.PYTHON, "-W", "ignore", "-m", "nixmon.checks.c17", path, side, str(seed), str(shard), str(case),
-                        str(point), str(int(control)), str(int(big))], cwd=env.VERIF, env=e, stdout=subprocess.PIPE,
+    cmd = [env.PYTHON, "-W", "ignore", "-m", "nixmon.checks.c17", path, side, str(seed), str(shard), str(case),
+           str(point), str(int(control)), str(int(big))]
+    if strace_log:
+        # system-call trace of the writer: every write-like call with the path of its file descriptor (-y)
+        e["NIXMON_C17_MARKER"] = strace_log + ".marker"
+        cmd = ["strace", "-f", "-qq", "-y", "-e", "trace=pwrite64,pwritev,write,writev,ftruncate,fsync,fdatasync", "-o", strace_log] + cmd
+    p = subprocess.run(cmd, cwd=env.VERIF, env=e, stdout=subprocess.PIPE,
                        stderr=subprocess.STDOUT, timeout=timeout)
     rec = None
     if os.path.exists(side):
         with open(side) as fh:
             rec = json.load(fh)
     return p.returncode, rec, p.stdout.decode("utf-8", "replace")[-1500:]
+
+
+def judge_strace(ctx, log, path, rec, rep):
+    """What reached the operating system, and when: write-like system calls on the NIX file before the call, between the
+    call's entry and its return, and between its return and the kill."""
+    marker = log + ".marker"
+    phase, n = "before", {"before": 0, "during": 0, "after": 0}
+    try:
+        with open(log, errors="replace") as fh:
+            for line in fh:
+                if marker in line and "NIXMON-ENTER" in line:
+                    phase = "during"
+                elif marker in line and "NIXMON-RETURN" in line:
+                    phase = "after"
+                elif "<%s>" % path in line and line.split("(")[0].split()[-1] in ("pwrite64", "pwritev", "write", "writev", "ftruncate"):
+                    n[phase] += 1
+    except OSError as e:
+        ctx.harness_errors.append({"where": "strace", "error": repr(e)})
+        return
+    if phase != "after":
+        ctx.harness_errors.append({"where": "strace", "error": "markers not found in the trace (phase=%s)" % phase})
+        return
+    ctx.count("strace:children_traced")
+    ctx.count("strace:write_syscalls_before_the_call", n["before"])
+    ctx.count("strace:write_syscalls_inside_%s" % rec["kind"], n["during"])
+    ctx.count("strace:%s_calls_that_wrote" % rec["kind"] if n["during"] else "strace:%s_calls_with_nothing_left_to_write" % rec["kind"])
+    if n["after"]:
+        # data handed to the operating system only AFTER flush()/close() returned was not safe when the call returned
+        ctx.violation("%s:writes_to_the_file_after_the_call_returned" % rec["kind"], dict(rep, write_syscalls_after_return=n["after"], during=n["during"]), rep)
+    if n["before"] + n["during"] == 0:
+        ctx.violation("%s:nothing_ever_written_to_the_file" % rec["kind"], dict(rep, since=rec.get("since")), rep)
 
 
 def judge(ctx, nix, path, rec, rep, control):
@@ -197,11 +241,20 @@ def run_shard(spec, ctx):
             ctx.count("crash_points_not_killed", npoints - len(pts))
         for pt in pts:
             rep = {"case": k, "shard": ctx.shard, "point": pt, "big": spec["big"]}
-            rc, rec2, out = spawn(path, side, ctx.seed, ctx.shard, k, pt, False, spec["big"])
+            traced = bool(spec.get("strace")) and k < spec["strace"]
+            slog = env.scratch_file("c17_%d.strace" % ctx.shard) if traced else None
+            rc, rec2, out = spawn(path, side, ctx.seed, ctx.shard, k, pt, False, spec["big"], strace_log=slog)
             if rc != -signal.SIGKILL or rec2 is None or "table" not in rec2:
                 ctx.harness_errors.append({"where": "child", "error": "rc=%s out=%s" % (rc, out[-500:])})
                 continue
             judge(ctx, nix, path, rec2, rep, False)
+            if traced:
+                judge_strace(ctx, slog, path, rec2, rep)
+                for x in (slog, slog + ".marker"):
+                    try:
+                        os.remove(x)
+                    except OSError:
+                        pass
             ctx.count("children_killed")
             ctx.count("point:" + rec2["kind"])
             ctx.count("ops_since_previous_point:%s" % min(len(rec2["since"]), 5))
